@@ -470,7 +470,6 @@ pub fn semtype_to_runtypes(
         .filter(|it| schemer.recursive_validators.contains(&it.name))
         .collect();
 
-    let vs = vs.into_iter().filter(|it| &it.name != name).collect();
     Ok((
         NamedSchema {
             name: name.clone(),
